@@ -180,7 +180,7 @@ def r2_readdir(ctx, F):
                 facts = [(v.guard_text(u, lab, roots, vfx=v, body=cl), lab) for (u, lab) in path]
                 txt = [t for (t, _) in facts]
                 is_ok = any(t == "discr(res)==0" for t in txt)
-                nonzero = any(t in ("Gt(delivered, 0)", "!Eq(0, delivered)", "!Eq(delivered, 0)", "Ne(0, delivered)", "Ne(delivered, 0)", "Ge(delivered, 1)") for t in txt)
+                nonzero = any(t in ("Lt(0, delivered)", "Ne(0, delivered)", "Le(1, delivered)") for t in txt)
                 if not (is_ok and nonzero):
                     bad_paths.append(txt)
         ctx.check("R2-readdir-pairing", "readdirplus/on-not-delivered", ok and not bad_paths,
@@ -209,7 +209,7 @@ def r3_forget(ctx, F):
     rm = [c for c in live_calls(b) if c.name == "remove"]
     # root test dominates everything else
     first = [c for c in live_calls(b)]
-    ok = all(any(vf.render(cond, b, short=True) in ("Eq(ROOT_ID, inode)", "Eq(inode, ROOT_ID)") and lab == 0 for (cond, lab, u) in v.guards(c.bb)) for c in first)
+    ok = all(any(vf.render(cond, b, short=True) in ("Ne(ROOT_ID, inode)", "Ne(inode, ROOT_ID)") and lab != 0 for (cond, lab, u) in v.guards(c.bb)) for c in first)
     ctx.check("R3-forget-shape", "root-exempt", ok and first, "forget_one touches the store before (or without) exempting the root inode", loc=b.loc())
     if not ctx.check("R3-forget-shape", "cas", len(cas) == 1 and len(ld) >= 1 and len(rm) == 1, "forget_one: expected one load/compare_exchange/remove, found %d/%d/%d: the decrement is not a compare-exchange loop" % (len(ld), len(cas), len(rm)), loc=b.loc()):
         return
@@ -276,7 +276,7 @@ def r4_lookup(ctx, F):
     ins = [c for c in live_calls(b) if c.name == "insert_locked"]
     if ins:
         g = [(vf.render(cond, b, short=True), lab) for (cond, lab, u) in v.guards(ins[0].bb)]
-    ctx.check("R4-lookup-shape", "number-limit", any("VFS_MAX_INO" in t and t.startswith("Gt(") and lab == 0 for (t, lab) in g),
+    ctx.check("R4-lookup-shape", "number-limit", any("VFS_MAX_INO" in t and t.startswith("Le(") and t.endswith(", VFS_MAX_INO)") and lab != 0 for (t, lab) in g),
               "do_lookup inserts an inode number without refusing numbers above VFS_MAX_INO", loc=b.loc())
 
 
